@@ -12,6 +12,16 @@ def sanitize(k):
     return k.replace('"', "'")
 
 
+def exc_lookup(exceptions, key):
+    """exact instance key, or an entry written as a prefix pattern (`...*`): used only where the reason does not depend on the varying part"""
+    if key in exceptions:
+        return key
+    for k in exceptions:
+        if k.endswith("*") and key.startswith(k[:-1]):
+            return k
+    return None
+
+
 def report_sites(ctx, rule, sites, exceptions, seen, note_prefix=""):
     """sites with keys assigned -> ok / exception / violation"""
     prog = ctx.prog
@@ -21,9 +31,10 @@ def report_sites(ctx, rule, sites, exceptions, seen, note_prefix=""):
         loc = s["fn"].loc(s["line"])
         if s["guard"]:
             ctx.ok(rule, key, s["guard"], loc)
-        elif key in exceptions:
-            used.add(key)
-            ctx.exception(rule, key, exceptions[key], loc)
+        elif exc_lookup(exceptions, key):
+            ek = exc_lookup(exceptions, key)
+            used.add(ek)
+            ctx.exception(rule, key, exceptions[ek], loc)
         else:
             chain = ctx.cg.pretty_chain(seen, s["fn"].id) if s["fn"].id in seen else ""
             ctx.violation(rule, key, "%sunguarded may-panic site `%s` on %s; reached via %s"
@@ -41,9 +52,10 @@ def report_divs(ctx, rule, sites, exceptions, seen):
         loc = s["fn"].loc(s["line"])
         if s["guard"]:
             ctx.ok(rule, key, s["guard"], loc)
-        elif key in exceptions:
-            used.add(key)
-            ctx.exception(rule, key, exceptions[key], loc)
+        elif exc_lookup(exceptions, key):
+            ek = exc_lookup(exceptions, key)
+            used.add(ek)
+            ctx.exception(rule, key, exceptions[ek], loc)
         else:
             ctx.violation(rule, key, "float division whose divisor `%s` is not shown non-zero by a constant, a clamp or a dominating comparison: "
                           "inf/NaN result when it is zero" % s["desc"][:120], loc)
